@@ -223,6 +223,7 @@ Definition typed (d : db) (c : hcall) : Prop :=
   | HZAdd k ms _ => kind_ok d k is_zset /\ ms <> []
   | HZRange k _ _ _ | HZRem k _ | HZScore k _ | HZIncBy k _ _ => kind_ok d k is_zset
   | HZRangeByScore k _ _ o => kind_ok d k is_zset /\ zr_rev o = false
+  | HScan _ _ => False      (* a single SCAN reply depends on the cursor encoding: specified by its iteration (StoreScan.v) *)
   | _ => True
   end.
 
@@ -261,7 +262,7 @@ Proof.
     + destruct (bytes_eqb key newkey) eqn:K; [reflexivity|]. rewrite (adel_aset_comm key newkey v K). reflexivity.
   - reflexivity.
   - reflexivity.
-  - reflexivity.
+  - (* SCAN *) contradiction.
   - (* SET *) destruct (so_xx o && negb (ahas d key)); [reflexivity|]. destruct (so_nx o); [reflexivity|].
     destruct (so_get o); [|reflexivity]. destruct (aget d key) as [[s|h|l|s|z]|] eqn:E; try reflexivity; kind T.
   - (* GET *) destruct (aget d key) as [[s|h|l|s|z]|] eqn:E; try reflexivity; kind T.
